@@ -518,6 +518,52 @@ func genFaultAt(kind string, pos int, fault int, persist int, region int) scenar
 	}
 }
 
+// A request waits more than five seconds (less than the 15 s acquire timeout) for the refresh lock another request holds, then
+// gets the lock, and one of its store operations under the lock fails once or twice (transient) - which the retry wrappers must
+// absorb whatever happened before. holderFails: the holder's grant is answered 5xx throughout, so the waiter has to refresh itself.
+func genContendedTransient(kind string, region int, faultAt int, repeat int, holderFails bool) scenarioFn {
+	return func(m *mrun, rng *mrand.Rand) {
+		m.login(1, 2)
+		md := m.storedMeta(0)
+		switch region {
+		case 1:
+			m.tick(md.Tokens.ExpireAt.Add(-session.RefreshLeeway).Sub(time.Now()) + time.Second)
+		case 2:
+			m.tick(md.Tokens.ExpireAt.Sub(time.Now()) + time.Second)
+		}
+		h := m.spawn("p", "L0", 1)
+		for i := 0; i < 3 && m.fail == ""; i++ { // read, lock, re-read: the holder now waits at the provider
+			m.run(h, 0)
+		}
+		w := m.spawn(kind, "L0", 1)
+		m.run(w, 0) // read
+		m.run(w, 0) // lock attempt: held
+		m.tick(5200 * time.Millisecond)
+		if holderFails {
+			var fs []int
+			for i := 0; i < 40; i++ {
+				fs = append(fs, fIdp5xx)
+			}
+			m.runToEnd(h, fs)
+		} else {
+			m.runToEnd(h, nil)
+		}
+		// the waiter: faultAt counts its operations from the lock acquisition on
+		var fs []int
+		for i := 0; i < faultAt; i++ {
+			fs = append(fs, 0)
+		}
+		for i := 0; i < repeat; i++ {
+			fs = append(fs, fStore)
+		}
+		m.runToEnd(w, fs)
+		t2 := m.spawn("p", "L0", 0)
+		m.runToEnd(t2, nil)
+		t3 := m.spawn("i", "L0", 0)
+		m.runToEnd(t3, nil)
+	}
+}
+
 // concurrent schedule: threads are spawned up front, then interleaved according to choices;
 // choice list is consumed one per step; the branching factors are recorded for exhaustive enumeration.
 type schedule struct {
@@ -776,6 +822,25 @@ func runMachine(args []string) error {
 			}
 		}
 	case "faultgrid":
+		for _, redis := range stores {
+			for _, kind := range []string{"p", "f", "r"} {
+				for region := 1; region < 3; region++ {
+					for faultAt := 0; faultAt < 5; faultAt++ {
+						for _, repeat := range []int{1, 2} {
+							for _, hf := range []bool{false, true} {
+								if !mine() {
+									continue
+								}
+								c := mcfg{redis: redis, maxlife: 7200 * sec, tau: 3600, fwd: true, updAtomic: *upd, memLock: *memlock, logoutStrict: *strict}
+								if err := emit(c, genContendedTransient(kind, region, faultAt, repeat, hf), 1); err != nil {
+									return err
+								}
+							}
+						}
+					}
+				}
+			}
+		}
 		for _, redis := range stores {
 			for _, kind := range []string{"p", "f", "i", "r", "lo", "ll", "fc"} {
 				for region := 0; region < 3; region++ {
